@@ -201,6 +201,13 @@ class C02(Plugin):
             for combo in itertools.product(pieces, repeat=ln):
                 out.append({"k": 1, "state": "scriptDataState", "cur": ["tag", 0, "script", [], 0], "tmp": "", "cdata": 0,
                             "text": "".join(combo) + "<script>a</script>b"})
+        # doctypes: every shape of name / PUBLIC / SYSTEM / identifiers, each followed by junk, a quote, EOF (force-quirks)
+        heads = ["<!DOCTYPE", "<!doctype html", "<!DOCTYPE html PUBLIC", "<!DOCTYPE html PUBLIC \"p\"", "<!DOCTYPE html PUBLIC 'p' \"s\"",
+                 "<!DOCTYPE html SYSTEM", "<!DOCTYPE html SYSTEM 's'", "<!DOCTYPE html SYSTEM \"about:legacy-compat\"", "<!DOCTYPE html PUBLIC\"p\"'s'",
+                 "<!DOCTYPE html PUBLIC 'p", "<!DOCTYPE html SYSTEM \"s", "<!DOCTYPE HTML PUBLIC \"-//W3C//DTD HTML 4.01//EN\" \"http://x\""]
+        for h in heads:
+            for tail in ("", ">", " >", " x>", "x>", " [ ]>", " 'q'>", "\x00>", " \x00", " x", ">y", " PUBLIC>", " SYSTEM 'z'>"):
+                out.append({"k": 1, "state": "dataState", "cur": None, "tmp": "", "cdata": 0, "text": h + tail})
         # numeric references at the boundaries of every range the standard distinguishes, decimal and hexadecimal
         for v in [0, 1, 9, 10, 13, 31, 32, 127, 128, 129, 159, 160, 0xD7FF, 0xD800, 0xDFFF, 0xE000, 0xFDD0, 0xFFFE, 0xFFFF,
                   0x10000, 99999, 100000, 999999, 1000000, 1114109, 1114111, 1114112, 9999999, 10000000, 0xFFFFF,
